@@ -58,7 +58,7 @@ def run(ctx):
     ctx.evaluations += sum(len(f.blocks) for f in fns.values())
     for f in fns.values():
         ctx.fns_seen.add(f.path)
-    ctx.floor('SYNC-C03c:effects', ts.effect_sites, 40, 'direct write/sync sites on the memory file in the reachable code')
+    ctx.floor('SYNC-C03c:effects', ts.effect_sites, 20, 'direct write/sync sites on the memory file in the reachable code')
     # ---- C03c
     for k in ACK:
         fn = F.fn(k)
